@@ -109,7 +109,7 @@ def make_protocol(kind: int, selector: str, cfg, wfile, search=None):
     elif kind == 2:
         p = http.HTTPProtocol("GET " + selector + " HTTP/1.0", srv, hx.make_rh(False), hx.LineReader([]), wfile, cfg)
     elif kind == 3:
-        p = wap.WAPProtocol("GET /wap" + selector + " HTTP/1.0", srv, hx.make_rh(False), hx.LineReader([]), wfile, cfg)
+        p = wap.WAPProtocol("GET " + cfg.get("protocols.wap.WAPProtocol", "waptop") + selector + " HTTP/1.0", srv, hx.make_rh(False), hx.LineReader([]), wfile, cfg)
     elif kind == 4:
         p = gemini.GeminiProtocol("gemini://srv.example" + selector + "\r\n", srv, hx.make_rh(True), None, wfile, cfg)
     else:
